@@ -55,7 +55,15 @@ def power(x1: PolyLike, x2: PolyLike, **kwargs: Any) -> ndpoly:
 
     """
     x1 = numpoly.aspolynomial(x1)
-    x2 = numpoly.aspolynomial(x2).tonumpy().astype(int)
+    x2 = numpoly.aspolynomial(x2).tonumpy()
+    if numpy.any(x2 != x2.astype(int)) or numpy.any(x2 < 0):
+        # only non-negative whole powers of a polynomial are polynomials.
+        if x1.isconstant():
+            return numpoly.polynomial(numpy.power(x1.tonumpy(), x2, **kwargs))
+        raise numpoly.FeatureNotSupported(
+            "polynomials only support non-negative integer exponents."
+        )
+    x2 = x2.astype(int)
 
     if x1.shape and x2.shape and x1.ndim != x2.ndim:
         # the transposes below only commute with broadcasting
